@@ -105,6 +105,9 @@ type Sched struct {
 // S is the active exploration, nil when code runs natively.
 var S *Sched
 
+// FreeRunning is set by the race pass: real goroutines, no scheduler.
+var FreeRunning bool
+
 // Active reports whether a controlled execution is running.
 func Active() bool { return S != nil }
 
